@@ -19,6 +19,7 @@ import (
 	"os"
 	"path/filepath"
 	"sort"
+	"strconv"
 	"strings"
 
 	"carlab/internal/gen"
@@ -69,6 +70,7 @@ var c19PlainForms = []string{
 var c19DagForms = []string{
 	"get-dag", "get-dag --version 1", "get-dag --selector explore-all", "get-dag --selector explore-all --version 1",
 	"get-dag --selector match-root", "get-dag --selector match-root --version 1",
+	"get-dag --selector depth3", "get-dag --selector depth5", "get-dag --selector depth5 --version 1", "get-dag --selector depth7",
 }
 
 var c19CreateForms = []string{"create", "create --version 1", "create --no-wrap"}
@@ -177,9 +179,24 @@ type c19Env struct {
 	cls   string         // input class label used in finding keys
 	cmd   []string       // argv lines of the commands run, for details
 	notes map[string]any // further case facts for details (stdin contents, selections)
+	stale bool           // the output path held a larger stale file before the command ran
 }
 
 func (e *c19Env) path(name string) string { return filepath.Join(e.dir, name) }
+
+// outPath is the path of a command's output file; in a third of the cases an earlier, larger
+// output already sits there and has to be replaced, not overlaid.
+func (e *c19Env) outPath(name string) string {
+	p := e.path(name)
+	if e.r.Intn(3) == 0 {
+		if err := os.WriteFile(p, bytes.Repeat([]byte{0xEE, 0x01, 0x00, 0x7f}, 16<<10), 0o644); err != nil {
+			panic(err)
+		}
+		e.t.Cover("variant:output-path-holds-a-larger-stale-file")
+		e.stale = true
+	}
+	return p
+}
 
 func (e *c19Env) write(name string, b []byte) string {
 	p := e.path(name)
@@ -201,6 +218,9 @@ func (e *c19Env) key(symptom string) string {
 
 func (e *c19Env) detail(res *c19Res, extra map[string]any) map[string]any {
 	m := map[string]any{"commands": e.cmd, "input_class": e.cls, "container": e.d.Cont, "zero_roots": e.d.ZeroRoots}
+	if e.stale {
+		m["output_path_before"] = "a 64 KiB stale file"
+	}
 	if res != nil {
 		m["argv"] = strings.Join(res.Argv, " ")
 		m["exit"] = res.Exit
@@ -469,7 +489,7 @@ func (e *c19Env) formIndex(in *c19In) {
 	if sub {
 		args = append(args, "create")
 	}
-	outP := e.path("out.bin")
+	outP := e.outPath("out.bin")
 	toStdout := e.r.Intn(4) == 0
 	var res c19Res
 	if toStdout {
@@ -528,7 +548,7 @@ func (e *c19Env) formDetach(in *c19In) {
 		return // nothing to detach: not a request of the property
 	}
 	inP := e.write("in.car", in.file)
-	outP := e.path("out.idx")
+	outP := e.outPath("out.idx")
 	var res c19Res
 	if e.r.Intn(4) == 0 {
 		res = e.run(nil, "detach-index", inP)
@@ -658,7 +678,7 @@ func (e *c19Env) filterOnce(inP, outP string, sel c19Selection, flags ...string)
 
 func (e *c19Env) formFilter(in *c19In) {
 	inP := e.write("in.car", in.file)
-	outP := e.path("out.car")
+	outP := e.outPath("out.car")
 	f := strings.Fields(e.d.Form)
 	inverse, appendMode := false, false
 	var flags []string
@@ -843,7 +863,7 @@ func (e *c19Env) formConcat(in *c19In) {
 	args := []string{"concat"}
 	f := strings.Fields(e.d.Form)
 	args = append(args, f[1:]...)
-	outP := e.path("out.car")
+	outP := e.outPath("out.car")
 	args = append(args, "-o", outP)
 	var want []refcar.Block
 	for i, x := range ins {
@@ -918,7 +938,7 @@ func (e *c19Env) tree() string {
 
 func (e *c19Env) formCreate() {
 	top := e.tree()
-	outP := e.path("out.car")
+	outP := e.path("out.car") // car create resumes an existing output file (and refuses one that is not a CAR): always a fresh path
 	args := []string{"create"}
 	args = append(args, strings.Fields(e.d.Form)[1:]...)
 	src := top
@@ -1008,6 +1028,17 @@ func c19MakeDag(seed int64, cont string, absent bool) *c19Dag {
 		d.links[string(b.Cid)] = ls
 		nodes = append(nodes, b)
 	}
+	// diamonds with paths of different length, the longer one first in link order: the old root is
+	// reached through a detour node before it is reached directly (matters for depth-limited selectors)
+	for w := r.Intn(3); w > 0; w-- {
+		old := nodes[len(nodes)-1].Cid
+		detour := mk(0x71, c19DagCborNode(gen.Bytes(r, 3), [][]byte{old}))
+		d.links[string(detour.Cid)] = [][]byte{old}
+		ls := [][]byte{detour.Cid, old}
+		top := mk(0x71, c19DagCborNode(gen.Bytes(r, 3), ls))
+		d.links[string(top.Cid)] = ls
+		nodes = append(nodes, detour, top)
+	}
 	d.root = nodes[len(nodes)-1].Cid
 	all := append([]refcar.Block{}, nodes...)
 	for i := r.Intn(4); i > 0; i-- { // unrelated blocks
@@ -1058,6 +1089,43 @@ func (d *c19Dag) reach() (map[string][]byte, bool) {
 	return out, understood
 }
 
+// reachWithin returns the present blocks whose shortest link distance from the root is at most
+// hops (what a depth-limited recursive selector without visit-once semantics loads).
+func (d *c19Dag) reachWithin(hops int) (map[string][]byte, bool) {
+	have := map[string][]byte{}
+	for _, b := range d.in.blocks {
+		have[string(b.Cid)] = b.Data
+	}
+	out := map[string][]byte{}
+	understood := true
+	frontier := [][]byte{d.root}
+	for dist := 0; dist <= hops && len(frontier) > 0; dist++ {
+		var next [][]byte
+		for _, c := range frontier {
+			if _, done := out[string(c)]; done {
+				continue
+			}
+			data, ok := have[string(c)]
+			if !ok {
+				continue
+			}
+			out[string(c)] = data
+			ls, known := d.links[string(c)]
+			if !known {
+				sc, _, _ := refcar.SplitCid(c)
+				var ok bool
+				if ls, ok = c19Links(sc, data); !ok {
+					understood = false
+					continue
+				}
+			}
+			next = append(next, ls...)
+		}
+		frontier = next
+	}
+	return out, understood
+}
+
 func (e *c19Env) formGetDag() {
 	var dag *c19Dag
 	switch e.d.Dag {
@@ -1084,9 +1152,10 @@ func (e *c19Env) formGetDag() {
 	}
 	e.t.Cover("dag:" + e.d.Dag)
 	inP := e.write("in.car", dag.in.file)
-	outP := e.path("out.car")
+	outP := e.outPath("out.car")
 	args := []string{"get-dag"}
 	rootOnly := false
+	maxHops := -1
 	f := strings.Fields(e.d.Form)
 	for i := 1; i < len(f); i++ {
 		switch f[i] {
@@ -1095,6 +1164,13 @@ func (e *c19Env) formGetDag() {
 			if f[i+1] == "match-root" {
 				sel = c19SelRoot
 				rootOnly = true
+			}
+			if strings.HasPrefix(f[i+1], "depth") {
+				// a depth-limited recursion: a generated dag-cbor node is {d: bytes, l: [links]}, so each
+				// link hop costs two data-model steps, and a limit of N admits N-1 steps
+				n, _ := strconv.Atoi(f[i+1][5:])
+				sel = fmt.Sprintf(`{"R":{"l":{"depth":%d},":>":{"a":{">":{"@":{}}}}}}`, n)
+				maxHops = (n - 1) / 2
 			}
 			args = append(args, "--selector", sel)
 			i++
@@ -1121,6 +1197,19 @@ func (e *c19Env) formGetDag() {
 		e.t.ViolateD(e.key("roots"), e.detail(&res, map[string]any{"got": c19Strs(o.roots), "want": c19CidString(dag.root)}), "`car %s`: the output's root is not the requested DAG root", e.d.Form)
 	}
 	want, understood := dag.reach()
+	if maxHops >= 0 {
+		if e.d.Dag == c19DagUnixfs {
+			e.t.Cover("get-dag:depth-selector-on-unixfs(not judged)")
+			return
+		}
+		want, understood = dag.reachWithin(maxHops)
+		if len(want) > 1 {
+			e.t.Cover("get-dag:depth-limited-multi-block")
+		}
+		if full, _ := dag.reach(); len(full) > len(want) {
+			e.t.Cover("get-dag:depth-limit-cuts-the-dag")
+		}
+	}
 	if rootOnly {
 		want = map[string][]byte{string(dag.root): want[string(dag.root)]}
 	} else if !understood {
